@@ -196,7 +196,15 @@ type adv struct {
 	fixed string
 	id    string
 	plats []string // OVAL: the <platform> elements of the definition (default: the document's platform)
+	// feeds are not one advisory = one package = one fixed version:
+	before []advPkg          // other packages the same advisory names, listed BEFORE pkg (OVAL: further criterions; aws: further <package>s)
+	viaVar []string          // OVAL dpkg: the object names a constant_variable holding these names and pkg (Canonical's documents do)
+	open   bool              // no fixed version (debian: status "open"; OVAL: a test without a state)
+	perRel map[string]string // debian: further releases of the same advisory id -> their own fixed version
 }
+
+// advPkg: another package of an advisory, with its own fixed version.
+type advPkg struct{ pkg, fixed string }
 
 // ---- alpine ----
 
@@ -213,8 +221,18 @@ func alpineSecdb(rel string, as []adv) []byte {
 		Reponame      string `json:"reponame"`
 		Packages      []pkg  `json:"packages"`
 	}{Distroversion: rel, Reponame: "main"}
+	// as in the real database: one entry per package, its secfixes map a fixed
+	// version to ALL the ids fixed by it
+	idx := map[string]int{}
 	for _, a := range as {
-		db.Packages = append(db.Packages, pkg{details{Name: a.pkg, Secfixes: map[string][]string{a.fixed: {a.id}}}})
+		i, ok := idx[a.pkg]
+		if !ok {
+			i = len(db.Packages)
+			idx[a.pkg] = i
+			db.Packages = append(db.Packages, pkg{details{Name: a.pkg, Secfixes: map[string][]string{}}})
+		}
+		sf := db.Packages[i].Pkg.Secfixes
+		sf[a.fixed] = append(sf[a.fixed], a.id)
 	}
 	b, _ := json.Marshal(db)
 	return b
@@ -307,8 +325,15 @@ func (w *world) debianWorld(rels []debRelease, advs map[string][]adv) {
 				v = &vuln{Description: "generated", Releases: map[string]rd{}}
 				data[a.pkg][a.id] = v
 			}
-			v.Releases[code] = rd{Status: "resolved", FixedVersion: a.fixed, Urgency: "low"}
+			if a.open {
+				v.Releases[code] = rd{Status: "open", Urgency: "low"}
+			} else {
+				v.Releases[code] = rd{Status: "resolved", FixedVersion: a.fixed, Urgency: "low"}
+			}
 			v.Releases["sid"] = rd{Status: "resolved", FixedVersion: a.fixed, Urgency: "low"}
+			for rel, fx := range a.perRel {
+				v.Releases[rel] = rd{Status: "resolved", FixedVersion: fx, Urgency: "low"}
+			}
 		}
 	}
 	b, _ := json.Marshal(data)
@@ -350,34 +375,72 @@ func ovalDoc(kind string, platform string, as []adv) []byte {
 	b.WriteString(`<?xml version="1.0" encoding="utf-8"?>` + "\n")
 	b.WriteString(`<oval_definitions xmlns="http://oval.mitre.org/XMLSchema/oval-definitions-5" xmlns:oval="http://oval.mitre.org/XMLSchema/oval-common-5">` + "\n<definitions>\n")
 	ns := `xmlns="http://oval.mitre.org/XMLSchema/oval-definitions-5#linux"`
+	// one test / object / state per (advisory, package)
+	type tst struct {
+		name   string
+		fixed  string
+		open   bool
+		viaVar []string
+	}
+	var tests []tst
 	for i, a := range as {
 		pl := a.plats
 		if pl == nil {
 			pl = []string{platform}
 		}
-		var pls strings.Builder
+		var pls, cris strings.Builder
 		for _, p := range pl {
 			pls.WriteString("<platform>" + xmlEsc(p) + "</platform>")
 		}
-		fmt.Fprintf(&b, `<definition class="patch" id="oval:verif:def:%d" version="1"><metadata><title>%s</title><affected family="unix">%s</affected><description>generated</description><advisory><severity>Important</severity><issued date="2024-01-01"/></advisory></metadata><criteria operator="AND"><criterion comment="c" test_ref="oval:verif:tst:%d"/></criteria></definition>`+"\n", i, xmlEsc(a.id), pls.String(), i)
+		for _, o := range a.before {
+			fmt.Fprintf(&cris, `<criterion comment="c" test_ref="oval:verif:tst:%d"/>`, len(tests))
+			tests = append(tests, tst{name: o.pkg, fixed: o.fixed})
+		}
+		fmt.Fprintf(&cris, `<criterion comment="c" test_ref="oval:verif:tst:%d"/>`, len(tests))
+		tests = append(tests, tst{name: a.pkg, fixed: a.fixed, open: a.open, viaVar: a.viaVar})
+		op := "AND"
+		if len(a.before) > 0 {
+			op = "OR"
+		}
+		fmt.Fprintf(&b, `<definition class="patch" id="oval:verif:def:%d" version="1"><metadata><title>%s</title><affected family="unix">%s</affected><description>generated</description><advisory><severity>Important</severity><issued date="2024-01-01"/></advisory></metadata><criteria operator="%s">%s</criteria></definition>`+"\n", i, xmlEsc(a.id), pls.String(), op, cris.String())
 	}
 	b.WriteString("</definitions>\n<tests>\n")
-	for i := range as {
-		fmt.Fprintf(&b, `<%sinfo_test check="at least one" comment="c" id="oval:verif:tst:%d" version="1" %s><object object_ref="oval:verif:obj:%d"/><state state_ref="oval:verif:ste:%d"/></%sinfo_test>`+"\n", kind, i, ns, i, i, kind)
+	for i, t := range tests {
+		st := fmt.Sprintf(`<state state_ref="oval:verif:ste:%d"/>`, i)
+		if t.open {
+			st = ""
+		}
+		fmt.Fprintf(&b, `<%sinfo_test check="at least one" comment="c" id="oval:verif:tst:%d" version="1" %s><object object_ref="oval:verif:obj:%d"/>%s</%sinfo_test>`+"\n", kind, i, ns, i, st, kind)
 	}
 	b.WriteString("</tests>\n<objects>\n")
-	for i, a := range as {
-		fmt.Fprintf(&b, `<%sinfo_object id="oval:verif:obj:%d" version="1" %s><name>%s</name></%sinfo_object>`+"\n", kind, i, ns, xmlEsc(a.pkg), kind)
+	for i, t := range tests {
+		if t.viaVar != nil {
+			fmt.Fprintf(&b, `<%sinfo_object id="oval:verif:obj:%d" version="1" %s><name var_ref="oval:verif:var:%d" var_check="at least one"/></%sinfo_object>`+"\n", kind, i, ns, i, kind)
+		} else {
+			fmt.Fprintf(&b, `<%sinfo_object id="oval:verif:obj:%d" version="1" %s><name>%s</name></%sinfo_object>`+"\n", kind, i, ns, xmlEsc(t.name), kind)
+		}
 	}
 	b.WriteString("</objects>\n<states>\n")
 	dt := "evr_string"
 	if kind == "dpkg" {
 		dt = "debian_evr_string"
 	}
-	for i, a := range as {
-		fmt.Fprintf(&b, `<%sinfo_state id="oval:verif:ste:%d" version="1" %s><evr datatype="%s" operation="less than">%s</evr></%sinfo_state>`+"\n", kind, i, ns, dt, xmlEsc(a.fixed), kind)
+	for i, t := range tests {
+		if !t.open {
+			fmt.Fprintf(&b, `<%sinfo_state id="oval:verif:ste:%d" version="1" %s><evr datatype="%s" operation="less than">%s</evr></%sinfo_state>`+"\n", kind, i, ns, dt, xmlEsc(t.fixed), kind)
+		}
 	}
-	b.WriteString("</states>\n</oval_definitions>\n")
+	b.WriteString("</states>\n<variables>\n")
+	for i, t := range tests {
+		if t.viaVar != nil {
+			fmt.Fprintf(&b, `<constant_variable id="oval:verif:var:%d" version="1" datatype="string" comment="c">`, i)
+			for _, n := range append(append([]string{}, t.viaVar...), t.name) {
+				b.WriteString("<value>" + xmlEsc(n) + "</value>")
+			}
+			b.WriteString("</constant_variable>\n")
+		}
+	}
+	b.WriteString("</variables>\n</oval_definitions>\n")
 	return []byte(b.String())
 }
 
@@ -529,17 +592,7 @@ func awsParse(ctx context.Context, rel aws.Release, as []adv) ([]*claircore.Vuln
 	if err != nil {
 		return nil, err
 	}
-	var b strings.Builder
-	b.WriteString(`<?xml version="1.0" ?><updates>`)
-	for _, a := range as {
-		ver, relv := a.fixed, "1"
-		if i := strings.LastIndexByte(a.fixed, '-'); i >= 0 {
-			ver, relv = a.fixed[:i], a.fixed[i+1:]
-		}
-		fmt.Fprintf(&b, `<update author="x" from="x" status="final" type="security" version="1.4"><id>%s</id><title>t</title><issued date="2024-01-01 00:00"/><updated date="2024-01-01 00:00"/><severity>important</severity><description>generated</description><references></references><pkglist><collection short="amazon-linux"><name>Amazon Linux</name><package arch="x86_64" epoch="0" name="%s" release="%s" version="%s"><filename>f.rpm</filename></package></collection></pkglist></update>`, xmlEsc(a.id), xmlEsc(a.pkg), xmlEsc(relv), xmlEsc(ver))
-	}
-	b.WriteString(`</updates>`)
-	return u.Parse(ctx, io.NopCloser(strings.NewReader(b.String())))
+	return u.Parse(ctx, io.NopCloser(bytes.NewReader(awsUpdateinfo(as))))
 }
 
 // ---- OSV ----
@@ -552,6 +605,7 @@ type osvAdv struct {
 	rangeType string // ECOSYSTEM | SEMVER
 	intro     string
 	fixed     string
+	before    []advPkg // further `affected` entries of the same advisory, listed before this package
 }
 
 func osvZip(as []osvAdv) []byte {
@@ -563,12 +617,20 @@ func osvZip(as []osvAdv) []byte {
 		if a.fixed != "" {
 			evs = append(evs, event{"fixed": a.fixed})
 		}
+		var affected []any
+		for _, o := range a.before {
+			affected = append(affected, map[string]any{
+				"package": map[string]string{"ecosystem": a.ecosystem, "name": o.pkg, "purl": a.purl + "-other"},
+				"ranges":  []any{map[string]any{"type": a.rangeType, "events": []event{{"introduced": "0"}, {"fixed": o.fixed}}}},
+			})
+		}
+		affected = append(affected, map[string]any{
+			"package": map[string]string{"ecosystem": a.ecosystem, "name": a.name, "purl": a.purl},
+			"ranges":  []any{map[string]any{"type": a.rangeType, "events": evs}},
+		})
 		doc := map[string]any{
 			"id": a.id, "summary": "generated", "published": "2024-01-01T00:00:00Z", "modified": "2024-01-01T00:00:00Z",
-			"affected": []any{map[string]any{
-				"package": map[string]string{"ecosystem": a.ecosystem, "name": a.name, "purl": a.purl},
-				"ranges":  []any{map[string]any{"type": a.rangeType, "events": evs}},
-			}},
+			"affected": affected,
 		}
 		b, _ := json.Marshal(doc)
 		f, _ := zw.Create(a.id + ".json")
@@ -605,12 +667,20 @@ func osvRun(ctx context.Context, w *world) (map[string][]*claircore.Vulnerabilit
 func awsUpdateinfo(as []adv) []byte {
 	var b strings.Builder
 	b.WriteString(`<?xml version="1.0" ?><updates>`)
-	for _, a := range as {
-		ver, relv := a.fixed, "1"
-		if i := strings.LastIndexByte(a.fixed, '-'); i >= 0 {
-			ver, relv = a.fixed[:i], a.fixed[i+1:]
+	pk := func(name, fixed string) string {
+		ver, relv := fixed, "1"
+		if i := strings.LastIndexByte(fixed, '-'); i >= 0 {
+			ver, relv = fixed[:i], fixed[i+1:]
 		}
-		fmt.Fprintf(&b, `<update author="x" from="x" status="final" type="security" version="1.4"><id>%s</id><title>t</title><issued date="2024-01-01 00:00"/><updated date="2024-01-01 00:00"/><severity>important</severity><description>generated</description><references></references><pkglist><collection short="amazon-linux"><name>Amazon Linux</name><package arch="x86_64" epoch="0" name="%s" release="%s" version="%s"><filename>f.rpm</filename></package></collection></pkglist></update>`, xmlEsc(a.id), xmlEsc(a.pkg), xmlEsc(relv), xmlEsc(ver))
+		return fmt.Sprintf(`<package arch="x86_64" epoch="0" name="%s" release="%s" version="%s"><filename>f.rpm</filename></package>`, xmlEsc(name), xmlEsc(relv), xmlEsc(ver))
+	}
+	for _, a := range as {
+		var pkgs strings.Builder
+		for _, o := range a.before {
+			pkgs.WriteString(pk(o.pkg, o.fixed))
+		}
+		pkgs.WriteString(pk(a.pkg, a.fixed))
+		fmt.Fprintf(&b, `<update author="x" from="x" status="final" type="security" version="1.4"><id>%s</id><title>t</title><issued date="2024-01-01 00:00"/><updated date="2024-01-01 00:00"/><severity>important</severity><description>generated</description><references></references><pkglist><collection short="amazon-linux"><name>Amazon Linux</name>%s</collection></pkglist></update>`, xmlEsc(a.id), pkgs.String())
 	}
 	b.WriteString(`</updates>`)
 	return []byte(b.String())
